@@ -71,6 +71,59 @@ func (s *cliScript) text() string {
 	return out
 }
 
+// beforeLongLine is the script made of the statements whose terminating
+// semicolon lies on a line before the first over-long line: those have been
+// read completely, whatever happens to the long line.
+func (s *cliScript) beforeLongLine() *cliScript {
+	var sb strings.Builder
+	sb.WriteString(s.Lead)
+	var ends []int
+	longAt := -1
+	for i, st := range s.Stmts {
+		if longAt < 0 {
+			if j := longestLineStart(st.Text, 65000); j >= 0 {
+				longAt = sb.Len() + j
+			}
+		}
+		sb.WriteString(st.Text)
+		sb.WriteString(";")
+		ends = append(ends, sb.Len())
+		if i < len(s.Seps) {
+			if longAt < 0 {
+				if j := longestLineStart(s.Seps[i], 65000); j >= 0 {
+					longAt = sb.Len() + j
+				}
+			}
+			sb.WriteString(s.Seps[i])
+		}
+	}
+	out := &cliScript{Lead: s.Lead, FinalSemi: true, FinalNewline: true}
+	if longAt < 0 {
+		return out
+	}
+	text := sb.String()
+	lineStart := strings.LastIndexByte(text[:longAt], '\n') + 1
+	for i, e := range ends {
+		if e <= lineStart {
+			out.Stmts = append(out.Stmts, s.Stmts[i])
+			out.Seps = append(out.Seps, "\n")
+		}
+	}
+	return out
+}
+
+// longestLineStart: offset of the first line of t longer than n bytes, or -1.
+func longestLineStart(t string, n int) int {
+	off := 0
+	for _, line := range strings.SplitAfter(t, "\n") {
+		if len(line) > n {
+			return off
+		}
+		off += len(line)
+	}
+	return -1
+}
+
 type cliExpect struct {
 	stdout     string
 	failures   int
@@ -267,12 +320,17 @@ func checkCLI(s *cliScript) (msg string, harnessErr string) {
 	}
 	if s.LongLineBytes > 65000 {
 		// acceptable: complete correct processing, or a reported failure with
-		// stdout a prefix of the expected output
+		// stdout a prefix of the expected output that still holds the SQL of
+		// every statement that ended on a line before the over-long one
 		if got == exp.stdout && (run.exit != 0) == (exp.failures > 0) {
 			return "", ""
 		}
-		if run.exit != 0 && strings.HasPrefix(exp.stdout, got) {
+		must := cliModel(s.beforeLongLine()).stdout
+		if run.exit != 0 && strings.HasPrefix(exp.stdout, got) && strings.HasPrefix(got, must) {
 			return "", ""
+		}
+		if run.exit != 0 && strings.HasPrefix(exp.stdout, got) {
+			return fmt.Sprintf("a line of %d bytes: the read failure is reported (exit status %d) but the output of statements that ended on earlier lines is lost: %d bytes written, the statements before that line produce %d\n stderr: %s", s.LongLineBytes, run.exit, len(got), len(must), trunc(run.stderr, 300)), ""
 		}
 		return fmt.Sprintf("a line of %d bytes: exit status %d with %d of %d expected output bytes: statements were dropped without an error", s.LongLineBytes, run.exit, len(got), len(exp.stdout)), ""
 	}
@@ -368,6 +426,16 @@ func TestC16Scripts(t *testing.T) {
 			case k == 10:
 				s.Stmts = append(s.Stmts, cliStmt{"empty", rapid.SampledFrom([]string{"", " ", "// only a comment\n"}).Draw(rt, "empty")})
 				kinds += "e"
+			case k == 11 && rapid.Bool().Draw(rt, "urlstring"):
+				// comment openers and semicolons inside string literals are text
+				s.Stmts = append(s.Stmts, cliStmt{"query", rapid.SampledFrom([]string{
+					"T | where u == \"http://h/p\" | count",
+					"T | where u == 'a//b' and a > 1",
+					"T | extend v = strcat('//', s, \"/* ; */\") | take 2",
+					"T | where s == \"x;y\" // tail; comment\n| count",
+					"T | where s == 'it\\'s // not a comment' | take 1",
+				}).Draw(rt, "urlquery")})
+				kinds += "Q"
 			default:
 				s.Stmts = append(s.Stmts, cliStmt{"query", "T"})
 				kinds += "Q"
@@ -392,6 +460,9 @@ func TestC16Scripts(t *testing.T) {
 		case 0:
 			// a line beyond the line reader's 64 KiB limit
 			s.LongLineBytes = 66000 + rapid.IntRange(0, 4000).Draw(rt, "longby")
+			if n := len(s.Seps); n > 0 && !strings.Contains(s.Seps[n-1], "\n") && rapid.IntRange(0, 3).Draw(rt, "ownline") > 0 {
+				s.Seps[n-1] += "\n"
+			}
 			s.Stmts = append(s.Stmts, cliStmt{"query", "T | where a == '" + strings.Repeat("x", s.LongLineBytes) + "'"}, cliStmt{"query", "U | count"})
 			s.Seps = append(s.Seps, "\n", "\n")
 			kinds += "XQ"
